@@ -618,6 +618,12 @@ func genSegCrash(c *ctx, emit func(string)) {
 	for i := 0; i < nfail; i++ {
 		emit(genFailChain(r, c, i))
 	}
+	// a segment of more than 64 KiB filled by equal batches whose sealing batch grows the file
+	// past its preallocation: the file ENDS right behind the sealing commit frame, on a multiple
+	// of the batch size (implementation only: recovery must not read anything behind the end)
+	for _, a := range []string{"3f0 3fb88", "3f0 3fb00", "7f0 ff400", "1f0 3fb88"} {
+		emit("#sealeof " + a)
+	}
 	// the same with 4..7 failed appends in a row (L stale commit frames behind the good one)
 	for i := 0; i < nfail/4; i++ {
 		emit(genFailChainLong(r, c))
@@ -1342,6 +1348,9 @@ func execSizes(c *ctx, line string) string {
 	if strings.HasPrefix(line, "#bigretry") {
 		return execBigRetry(c, line)
 	}
+	if strings.HasPrefix(line, "#sealeof") {
+		return execSealEOF(c, line)
+	}
 	if strings.HasPrefix(line, "#big") {
 		return execBig(c, line)
 	}
@@ -1584,4 +1593,67 @@ func execBigRetry(c *ctx, line string) (obs string) {
 	}
 	c.stat("bigretry_cases")
 	return "ok"
+}
+
+// execSealEOF: `#sealeof <payload> <limit>` (hex): one-entry batches of the given payload until
+// the segment seals; the sealing batch extends the file beyond its preallocated size, so the
+// file ends with the sealing commit frame.  A restart between the sealing append and the
+// rotation: RecoverTail of that file must succeed, report the seal and return every entry.
+func execSealEOF(c *ctx, line string) (obs string) {
+	defer func() {
+		if e := recover(); e != nil {
+			obs = "panic"
+			c.witness("C03", "recovery-panic", fmt.Sprintf("RecoverTail panics: %v", e), line)
+		}
+	}()
+	f := strings.Split(line, " ")
+	psize, limit := int(parseU(f[1])), uint32(parseU(f[2]))
+	info := types.SegmentInfo{ID: 2, BaseIndex: 1, MinIndex: 1, Codec: 1, SizeLimit: limit}
+	vfs := newMemFS()
+	filer := segment.NewFiler("d", vfs)
+	sw, err := filer.Create(info)
+	if err != nil {
+		return "badinput"
+	}
+	var all [][]byte
+	for i := uint64(1); i < 5000; i++ {
+		d := make([]byte, psize)
+		for j := range d {
+			d[j] = byte(int(i)*31 + j)
+		}
+		// payloads that look like frames: a stale window parsed as file content finds "frames"
+		d[0], d[1], d[2], d[3] = 1, 0, 0, 0
+		if err := sw.Append([]types.LogEntry{{Index: i, Data: d}}); err != nil {
+			return "badinput"
+		}
+		all = append(all, d)
+		if sealed, _, _ := sw.Sealed(); sealed {
+			break
+		}
+	}
+	if sealed, _, _ := sw.Sealed(); !sealed {
+		return "badinput-unsealed"
+	}
+	sw.Close()
+	fail := func(msg string) string {
+		c.witness("C03", "recovery-fails-on-crash-state", msg, line)
+		c.witness("C02", "recovery-fails-on-crash-state", msg, line)
+		return "fail"
+	}
+	sw2, err := filer.RecoverTail(info)
+	if err != nil {
+		return fail(fmt.Sprintf("RecoverTail of a tail sealed by its last append (file of %d bytes, limit %d) fails: %v", len(vfs.files[segment.FileName(info)].data), limit, err))
+	}
+	if sealed, _, _ := sw2.Sealed(); !sealed || sw2.LastIndex() != uint64(len(all)) {
+		return fail(fmt.Sprintf("recovered tail: sealed=%v LastIndex=%d, %d entries were acknowledged and the file is sealed", sealed, sw2.LastIndex(), len(all)))
+	}
+	for i, d := range all {
+		pb, gerr := sw2.GetLog(uint64(i + 1))
+		if gerr != nil || !bytes.Equal(pb.Bs, d) {
+			return fail(fmt.Sprintf("entry %d unreadable after recovery: %v", i+1, gerr))
+		}
+		pb.Close()
+	}
+	c.stat("sealeof_cases")
+	return fmt.Sprintf("ok %d", len(all))
 }
